@@ -96,7 +96,20 @@ reg(part('memmem_reexport', 'src/memmem/mod.rs', 'memmem', only_items=['use crat
 P0 = ['prelude/vbase.vrs']
 BASE = ['ext', 'vector', 'generic_memchr']
 BUILDS = {
-    'main': dict(parts=BASE + ['all_memchr', 'all_mod', 'all_rabinkarp'], prelude=P0 + ['prelude/x_eqrk.vrs']),
+    # F variant: everything that is verified against debug/documented-domain semantics
+    'main': dict(parts=['ext', 'vector', 'generic_memchr', 'sse2_memchr', 'avx2_memchr', 'all_memchr', 'x86_64_memchr',
+                        'memchr_top', 'root_reexport', 'all_mod', 'all_rabinkarp', 'all_packedpair', 'all_default_rank',
+                        'generic_packedpair', 'sse2_packedpair', 'avx2_packedpair', 'memmem_reexport', 'memmem_pre',
+                        'all_twoway'],
+                 prelude=P0 + ['prelude/x_eqrk.vrs', 'prelude/x_pp.vrs', 'prelude/x_tw.vrs', 'prelude/hist.vrs']),
+    # S variant (release semantics, type invariants only): decides C05 for the packed-pair finders
+    'safe': dict(parts=['ext', 'stub_root', 's_vector', 's_all_mod', 's_all_packedpair', 'all_default_rank',
+                        's_generic_packedpair', 's_sse2_packedpair', 's_avx2_packedpair'],
+                 prelude=P0 + ['prelude/x_eqrk.vrs', 'prelude/x_pp.vrs']),
+    # the substring front end against assumed searcher contracts (stubs)
+    'memmem': dict(parts=['ext', 'vector', 'stub_root', 'stub_all_memchr', 'stub_all_packedpair', 'stub_rabinkarp',
+                          'stub_twoway', 'cow', 'memmem_mod', 'memmem_pre', 'memmem_searcher'],
+                   prelude=P0 + ['prelude/x_memmem.vrs']),
     # development builds (one per porting task; each may add its own prelude/x_<name>.vrs)
     'dev_generic': dict(parts=BASE, prelude=P0),
     'dev_eq': dict(parts=['ext', 'vector', 'all_mod'], prelude=P0),
@@ -104,9 +117,9 @@ BUILDS = {
     'dev_top': dict(parts=BASE + ['sse2_memchr', 'avx2_memchr', 'all_memchr', 'x86_64_memchr', 'memchr_top', 'root_reexport'], prelude=P0),
     'dev_swar': dict(parts=BASE + ['all_memchr'], prelude=P0 + ['prelude/x_swar.vrs']),
     'dev_eqrk': dict(parts=['ext', 'vector', 'all_mod', 'all_rabinkarp'], prelude=P0 + ['prelude/x_eqrk.vrs']),
-    'dev_pp': dict(parts=BASE + ['all_mod', 'all_packedpair', 'all_default_rank', 'generic_packedpair',
+    'dev_pp': dict(parts=BASE + ['stub_root', 'all_mod', 'all_packedpair', 'all_default_rank', 'generic_packedpair',
                                  'sse2_packedpair', 'avx2_packedpair'], prelude=P0 + ['prelude/x_eqrk.vrs', 'prelude/x_pp.vrs']),
-    'dev_pps': dict(parts=['ext', 's_vector', 's_all_mod', 's_all_packedpair', 'all_default_rank', 's_generic_packedpair',
+    'dev_pps': dict(parts=['ext', 'stub_root', 's_vector', 's_all_mod', 's_all_packedpair', 'all_default_rank', 's_generic_packedpair',
                            's_sse2_packedpair', 's_avx2_packedpair'], prelude=P0 + ['prelude/x_eqrk.vrs', 'prelude/x_pp.vrs']),
     'dev_pre': dict(parts=['ext', 'vector', 'stub_all_memchr', 'memmem_reexport', 'memmem_pre'], prelude=P0),
     'dev_tw': dict(parts=['ext', 'vector', 'all_mod', 'stub_all_memchr', 'memmem_reexport', 'memmem_pre', 'all_twoway'], prelude=P0 + ['prelude/x_eqrk.vrs', 'prelude/x_tw.vrs']),
